@@ -19,11 +19,14 @@ R3_EXCEPTIONS = {
     ('renoir::operator::keyed_fold::KeyedFold', 'timestamps'): 'emptied key by key (`remove`) together with `accumulators.drain()`: every key of it is a key of accumulators',
     ('renoir::operator::reorder::Reorder', 'scratch'): 'scratch space of the sort routine, holds no elements between calls',
     ('renoir::operator::rich_map::RichMap', 'maps_fn'): 'documented per-key closures kept across iterations (reset is commented out upstream; evidence note under C07)',
+    ('renoir::operator::window::WindowOperator', 'manager.windows'): 'the per-key managers are kept unless recycle() says they are empty; what a manager keeps across an iteration end is checked by C05.R4',
     ('renoir::operator::iteration::replay::Replay', 'content'): 'the recorded input is replayed every round by design and cleared when the loop finishes (C10)',
 }
 
 
 def state_fields(facts, f, interp):
+    """(place, dotted name, type) of the emptiable state: collection / Option fields of the operator, also one level
+    inside fields that are crate-local structs (e.g. the two SideHashMap of a join)"""
     adt = facts.adts[f.impl_adt]
     ms = mod_fields(facts, f)
     out = []
@@ -31,8 +34,13 @@ def state_fields(facts, f, interp):
         ty = fl['ty']
         if '*' not in ms and fl['name'] not in ms:
             continue
+        base = [1, '*', ['f', i, fl['name']]]
         if ty.startswith(interp.COLL_PREFIXES) or ty.startswith('std::option::Option<'):
-            out.append((i, fl['name'], ty))
+            out.append((base, fl['name'], ty))
+        elif fl.get('adt') in facts.adts and facts.adts[fl['adt']]['kind'] == 'struct' and not ty.startswith(('&', '*')) and fl['name'] != 'prev':
+            for j, g in enumerate(facts.adts[fl['adt']]['variants'][0]['fields']):
+                if g['ty'].startswith(interp.COLL_PREFIXES):
+                    out.append((base + [['f', j, g['name']]], '%s.%s' % (fl['name'], g['name']), g['ty']))
     return out
 
 
@@ -43,9 +51,11 @@ def c05_r3(ctx):
     for f, a in std:
         g = a.g
         fars = [n for n in g.return_nodes() if _exact(a, n, 'FlushAndRestart')]
-        for i, name, ty in state_fields(ctx.facts, f, a.interp):
-            key = pkey([1, '*', ['f', i, name]])
+        for place, name, ty in state_fields(ctx.facts, f, a.interp):
+            key = pkey(place)
             init = a.init.get(key)
+            if len(place) > 3 and init is None:
+                init = ('e',)   # nested collections of a Default-constructed helper struct start empty
             if init not in EMPTY:
                 continue     # configured by setup or not an emptiable state
             total += 1
